@@ -331,6 +331,9 @@ func c12One(c *core.C, ci *c12Image, ix *c12Index, w *c12Workload, f *c12Filter,
 		}
 		c.Distinct("legal_error_kinds", kind)
 		c.Nontrivial(fmt.Sprintf("%s error=%s", mode, kind))
+		for _, k := range p.strict {
+			c.Count("contradiction_rejected:"+k, 1)
+		}
 		return p
 	}
 	if ferr != nil {
@@ -340,6 +343,15 @@ func c12One(c *core.C, ci *c12Image, ix *c12Index, w *c12Workload, f *c12Filter,
 	c.Count("filters_ok", 1)
 	if len(p.strict) > 0 {
 		c.Count("contradictions_not_rejected", 1)
+		for _, k := range p.strict {
+			c.Count("contradiction_accepted:"+k, 1)
+		}
+		// The filter includes an element and excludes it, its container, or something it cannot exist without:
+		// "contains every included element" and "contains no excluded element nor any reference to one" cannot
+		// both hold, so the only outcome consistent with the statement is a refusal. A result that quietly
+		// lacks the included element breaks the first clause.
+		c.Violation("contradiction-not-rejected", "kind="+p.strict[0],
+			fmt.Sprintf("FilterImage accepted a contradictory filter (%s) and returned an image; filter: %s\n  names: %s", strings.Join(p.strict, ", "), f, strings.Join(f.tags, " ")), nil)
 	}
 	// ---- the other mode gives the same image -------------------------------------------------
 	// (not for a filter that includes something whose own type is excluded: failing and
@@ -740,6 +752,7 @@ func c12MakeFilters(r *rand.Rand, ix *c12Index, n int) []*c12Filter {
 		func() *c12Filter { m := pk(cat.mths); return mk(one(parentOf(m)), one(m)) },
 		func() *c12Filter { t := pk(cat.rpcReq); return mk(one(parentOf(methodOf(t, true))), one(t)) },
 		func() *c12Filter { t := pk(cat.rpcResp); return mk(one(methodOf(t, false)), one(t)) }, // contradiction
+		func() *c12Filter { t := pk(cat.rpcReq); return mk(one(methodOf(t, true)), one(t)) },   // contradiction
 		func() *c12Filter { t := pk(cat.fieldTypes); return mk(one(userOf(t)), one(t)) },
 		func() *c12Filter { t := pk(cat.mapVals); return mk(one(userOf(t)), one(t)) },
 		func() *c12Filter { n := pk(cat.nested); return mk(one(n), one(parentOf(n))) }, // contradiction
